@@ -36,7 +36,7 @@ def r11_1(ctx, R):
                       "Pending/None facts; no live drop of an item")
     c01.r1_6(ctx, R)
     ctx.rule("R1.6", "see C01 R1.6 (shared)")
-    c05.r5_2(ctx, R)
+    c05.r5_2(ctx, R, only_in=c02.COLLECTIONS)
     ctx.rule("R5.2", "see C05 R5.2 (shared)")
     ctx.rule("R2.1", "see C02 R2.1 (shared, evaluated as part of R5.2)")
     n = 0
@@ -107,6 +107,13 @@ def r11_2(ctx, R):
             if on_groups and not re.search(GROUP_VEC_OK, fn_name(fn) or ""):
                 bad.append("%s at %s" % (fn_name(fn), b.loc(bb)))
         ctx.ob("R11.2", b, "push-is-append-only", not bad, d_loc(b), "; ".join(bad))
+        # every push is accepted: exactly one successful insertion on every return path (no silently dropped source)
+        pins = c02.push_path_insertions(ctx, b)
+        badp = [(p, k) for p, k in pins if k != 1]
+        ctx.ob("R11.2", b, "push-inserts-exactly-once-on-every-path", bool(pins) and not badp, d_loc(b),
+               "%d return paths; insertion counts of the bad ones: %s" % (len(pins), [k for _, k in badp[:4]]), path=badp[0][0] if badp else None)
+        lds = live_drops(ctx, b, lambda t: t["k"] == "param" and not t["name"].startswith("impl "))
+        ctx.ob("R11.2", b, "push-drops-no-source", not lds, d_loc(b), "; ".join("%s at %s" % (place_str(p), b.loc(bb)) for bb, p, how in lds))
         # pushing a new group: the stream goes into that fresh group before it is appended
         pushes = [(bb, t) for bb, t, fn in direct_sites(b, r"alloc::vec::Vec::<.*>::push$")]
         ctx.ob("R11.2", b, "appends-groups-at-the-end", len(pushes) >= 1, d_loc(b), "%d Vec::push sites" % len(pushes))
